@@ -13,6 +13,7 @@ from __future__ import annotations
 import z3
 
 from pyvc.models import geod
+from pyvc.models.arrays import SArr
 from pyvc.models.geod import DIST
 from pyvc.source import Unsupported
 from pyvc.values import Builtin, EnumMember, FStr, Model, Obj, PyExc, to_real, to_z3
@@ -244,6 +245,195 @@ def add_schedule(h):
         h.ensure('no-warning-without-a-dropped-instance', (7 in w) == prior and (not prior or w[7] is warnings[7]))
 
 
+class SymRows(Model):
+    """The list `data` of _add_schedule after an arbitrary number of iterations: n rows (departure, arrival, day,
+    flight id) and, as ghost state, the date index each row was created for."""
+    type_names = ('list',)
+
+    def __init__(self, n, cols, src):
+        self.n, self.cols, self.src = n, cols, src
+        self.current = None          # date index of the iteration being executed (ghost)
+
+    def py_len(self, I):
+        return self.n
+
+    def py_getattr(self, I, name):
+        if name == 'append':
+            def append(t):
+                if not (isinstance(t, tuple) and len(t) == 4):
+                    raise Unsupported('a schedule row that is not a 4-tuple')
+                n, old, osrc, cur = self.n, self.cols, self.src, self.current
+                self.cols = [(lambda k, c=c, f=old[c]: z3.If(k == n, to_z3(t[c]), f(k))) for c in range(4)]
+                self.src = lambda r: z3.If(r == n, cur, osrc(r))
+                self.n = n + 1
+            return Builtin('append', append, pure=False)
+        raise Unsupported('list.' + name)
+
+
+@unit('C13', 'add_schedule.any-number-of-dates', [W + ':WritableDatabase._add_schedule'], replay='contracts.C13:replay_import', max_paths=20000,
+      timeout_ms=30000)
+def add_schedule_inductive(h):
+    """The date loop by an inductive invariant, for effective ranges of any length: with incl(j) = "date j of the range
+    operates and its arrival is not before its departure" and CNT(i) = number of included dates before i, after i
+    dates the list holds CNT(i) rows, the row of every included date j < i sits at position CNT(j) with that date's
+    instants, every row belongs to an included date, and a warning for the line exists iff one was there before or
+    some operating date was dropped."""
+    from pyvc.loops import invariant_for_range
+    install_time(h)
+    I = h.I
+    d0, D = h.int('first_day'), h.int('n_dates')
+    h.assume(z3.And(d0 >= 0, D >= 0), 'the effective range has D >= 0 dates')
+    DOW = I.lookup_fq('AEIC.types.time:DayOfWeek')
+    TOD = I.lookup_fq('AEIC.types.time:TimeOfDay')
+    op = {m.value: h.bool(f'operates_on_{m.name}') for m in DOW.members}
+
+    class DaySet(Model):
+        def py_contains(self, I_, item):
+            if isinstance(item, EnumMember):
+                return op[item.value]
+            raise Unsupported('weekday set membership of ' + repr(item))
+    dh, dm, ah, am = (h.int(x) for x in ('dep_hour', 'dep_minute', 'arr_hour', 'arr_minute'))
+    h.assume(z3.And(dh >= 0, dh <= 23, dm >= 0, dm <= 59, ah >= 0, ah <= 23, am >= 0, am <= 59), 'times of day are valid')
+    off = h.int('arrival_day_offset')
+    h.assume(z3.And(off >= -1, off <= 2), 'arrival day offset in -1..2')
+    origin, dest = airport_info(h, 'ORG', 'Zone/Origin'), airport_info(h, 'DST', 'Zone/Destination')
+    prior = h.choice(2) == 1
+    warnings = {7: h.new(W + ':Warning', warn_type=None, data=None)} if prior else {}
+    db = h.new(W + ':WritableDatabase', _partial=True, warnings=warnings, unknown_airports=set())
+    cur = CursorStub()
+    fid = h.int('flight_id')
+    zo, zd = z3.StringVal('Zone/Origin'), z3.StringVal('Zone/Destination')
+    Zs = z3.IntSort()
+
+    def spec(j):
+        day = d0 + j
+        wd = (day + 3) % 7 + 1
+        operates = z3.Or(*[z3.And(wd == v, b) for v, b in op.items()])
+        dep_wall = day * 86400 + dh * 3600 + dm * 60
+        arr_wall = (day + off) * 86400 + ah * 3600 + am * 60
+        dep = dep_wall - OFF(zo, dep_wall)
+        arr = arr_wall - OFF(zd, arr_wall)
+        return operates, dep, arr
+    CNT = z3.Function('included_dates_before', Zs, Zs)
+    DRP = z3.Function('dropped_dates_before', Zs, Zs)
+
+    def incl(j):
+        o, d, a = spec(j)
+        return z3.And(o, a >= d)
+
+    def drop(j):
+        o, d, a = spec(j)
+        return z3.And(o, a < d)
+
+    def unfold(i):
+        i = to_z3(i)
+        h.ctx.assume(z3.And(CNT(0) == 0, DRP(0) == 0))
+        h.ctx.assume(z3.Implies(i >= 0, z3.And(CNT(i + 1) == CNT(i) + z3.If(incl(i), 1, 0), DRP(i + 1) == DRP(i) + z3.If(drop(i), 1, 0),
+                                               CNT(i) >= 0, DRP(i) >= 0)))
+    h.trust('counting functions CNT / DRP are defined by CNT(0) = 0, CNT(i+1) = CNT(i) + [incl(i)] (likewise DRP); instances are unfolded where used')
+
+    def date_range(I_, a, b, tz=None, **k):
+        return SArr(D, lambda i: Ts((to_z3(a.days) + to_z3(i)) * 86400, 'UTC'), kind='list')
+    I.models['pandas.date_range'] = date_range
+
+    def from_pandas(I_, fi, a, k):
+        wd = a[1].py_getattr(I_, 'isoweekday').fn()
+        i = I_.ctx.choose(7, lambda j: I_.ctx.feasible(wd == j + 1))
+        I_.ctx.assume(wd == i + 1)
+        return DOW.members[i]
+    h.summary('AEIC.types.time:DayOfWeek.from_pandas', from_pandas)
+    j, r = h.int('any_date'), h.int('any_row')
+    h.assume(z3.And(j >= 0, r >= 0))
+    state = dict(n=0)
+
+    def rows_of(v):
+        if isinstance(v, SymRows):
+            return v
+        if isinstance(v, list):
+            if v:
+                raise Unsupported('non-empty concrete row list at a loop head')
+            return SymRows(z3.IntVal(0), [lambda k: z3.IntVal(0)] * 4, lambda q: z3.IntVal(-1))
+        raise Unsupported('the row list is a ' + type(v).__name__)
+
+    def find_rows(fr):
+        c = [k for k, v in fr.locals.items() if isinstance(v, (SymRows, list)) and k != 'self']
+        c = [k for k in c if isinstance(fr.locals[k], SymRows) or fr.locals[k] == []]
+        if len(c) != 1:
+            raise Unsupported('cannot identify the list of schedule rows')
+        return c[0]
+
+    def has_warning():
+        w = db.attrs['warnings']
+        return 7 in w
+
+    def inv(I_, fr, i):
+        i = to_z3(i)
+        unfold(i), unfold(j), unfold(i - 1)
+        name = find_rows(fr)
+        rows = rows_of(fr.locals[name])
+        if isinstance(fr.locals[name], SymRows):
+            fr.locals[name].current = i
+        o, dep, arr = spec(j)
+        conj = [rows.n == CNT(i), i >= 0,
+                z3.Implies(z3.And(j < i, incl(j)), z3.And(CNT(j) < rows.n, rows.cols[0](CNT(j)) == dep, rows.cols[1](CNT(j)) == arr,
+                                                          rows.cols[2](CNT(j)) == dep / 86400, rows.cols[3](CNT(j)) == fid)),
+                z3.Implies(j < i, CNT(j) + z3.If(incl(j), 1, 0) <= CNT(i)),
+                z3.Implies(r < rows.n, z3.And(rows.src(r) >= 0, rows.src(r) < i, incl(rows.src(r)), CNT(rows.src(r)) == r)),
+                z3.BoolVal(has_warning()) == z3.Or(z3.BoolVal(prior), DRP(i) > 0)]
+        return z3.And(*conj)
+
+    def havoc(I_, fr):
+        state['n'] += 1
+        t = state['n']
+        name = find_rows(fr)
+        cols = [z3.Function(f'havoc{t}_col{c}', Zs, Zs) for c in range(4)]
+        src = z3.Function(f'havoc{t}_src', Zs, Zs)
+        fr.locals[name] = SymRows(h.int(f'havoc{t}_rows'), [(lambda k, f=f: f(k)) for f in cols], lambda q: src(q))
+        for k in list(fr.locals):
+            if k not in (name, 'self') and z3.is_expr(fr.locals[k]) and k in state['assigned']:
+                fr.locals[k] = h.int(f'havoc{t}_{k}')
+        # the warning table: whether the line has a warning now is arbitrary (the invariant says when)
+        w = db.attrs['warnings']
+        if h.choice(2) == 1:
+            w[7] = h.new(W + ':Warning', warn_type=('some-type' if prior else None), data=None) if 7 not in w else w[7]
+            state['havoc_warn'] = True
+        else:
+            w.pop(7, None)
+            state['havoc_warn'] = False
+    base = invariant_for_range('_add_schedule.dates', inv, havoc)
+
+    def handler(I_, st, fr):
+        import ast
+        state['assigned'] = {n.id for x in ast.walk(st) for n in ast.walk(x) if isinstance(n, ast.Name) and isinstance(n.ctx, ast.Store)}
+        return base(I_, st, fr)
+    I.loop_invariants[(W + ':WritableDatabase._add_schedule', 0)] = handler
+    try:
+        n = h.method(db, '_add_schedule', cur, 7, fid, origin, dest, DateV(d0), DateV(d0 + D - 1), DaySet(),
+                     I.call(TOD, [dh, dm], {}), I.call(TOD, [ah, am], {}), off)
+    except PyExc as e:
+        h.fail('no-internal-error', f'{e.inst!r} at {e.inst.where}')
+        return
+    sent = [d for nm, sql, d in cur.calls if nm == 'executemany' and 'schedules' in str(sql)]
+    unfold(D), unfold(j)
+    total = CNT(D)
+    if not sent:
+        h.ensure('nothing-is-inserted-only-when-no-date-is-included', z3.And(total == 0, to_z3(n) == 0))
+    else:
+        rows = sent[0]
+        if len(sent) != 1 or not isinstance(rows, SymRows):
+            h.fail('rows-are-inserted-once', repr(sent))
+            return
+        o, dep, arr = spec(j)
+        h.ensure('returns-the-number-of-instances', z3.And(to_z3(n) == rows.n, rows.n == total))
+        h.ensure('every-included-date-has-its-instance-at-the-utc-instants-of-the-local-times',
+                 z3.Implies(z3.And(j < D, incl(j)), z3.And(CNT(j) < rows.n, rows.cols[0](CNT(j)) == dep, rows.cols[1](CNT(j)) == arr,
+                                                           rows.cols[2](CNT(j)) == dep / 86400, rows.cols[3](CNT(j)) == fid)))
+        h.ensure('every-instance-belongs-to-exactly-one-included-date',
+                 z3.Implies(r < rows.n, z3.And(rows.src(r) >= 0, rows.src(r) < D, incl(rows.src(r)), CNT(rows.src(r)) == r)))
+    w = db.attrs['warnings']
+    h.ensure('warned-iff-a-warning-was-there-or-an-operating-date-was-dropped', z3.BoolVal(7 in w) == z3.Or(z3.BoolVal(prior), DRP(D) > 0))
+
+
 @unit('C13', 'oag.add', [O + ':OAGDatabase.add'], replay='contracts.C13:replay_import')
 def oag_add(h):
     install_time(h)
@@ -469,6 +659,9 @@ def native_import_check(payload):
             fid = db._conn.execute('SELECT MAX(id) FROM flights').fetchone()[0]
             got = db._conn.execute('SELECT departure_timestamp, arrival_timestamp FROM schedules WHERE flight_id = ? ORDER BY departure_timestamp', (fid,)).fetchall()
             nf = db._conn.execute('SELECT number_of_flights FROM flights WHERE id = ?', (fid,)).fetchone()[0]
+            days_bad = db._conn.execute('SELECT departure_timestamp, day FROM schedules WHERE flight_id = ? AND day != departure_timestamp / 86400', (fid,)).fetchall()
+            if days_bad:
+                viol.append(dict(what='instance day number is the UTC day of its departure', input=row, observed=days_bad[:2]))
             if sorted(got) != sorted(want):
                 bad = [g for g in got if g not in want][:2] + [w for w in want if w not in got][:2]
                 viol.append(dict(what='exactly the instances the row implies, at the correct UTC instants', input=row,
